@@ -25,6 +25,20 @@ def gen_ss(rng, nops=None, multi=None):
     tx = 0
     cur_sd = list(wins)
     cur_d = max_data0
+    if rng.random() < 0.12:
+        # a finished stream whose FIN packet is acknowledged while an earlier data packet is lost;
+        # the random operations that follow (reset, STOP_SENDING, transmit, ..) start from there
+        k = rng.randrange(n)
+        L = rng.choice([40, 64, 100, 200, 1000])
+        c1 = rng.choice([20, 33, 40, 70, 120])
+        case[1] = max(case[1], 1 << 20)
+        case[3] = 0
+        case[4 + k] = max(case[4 + k], 4096)
+        cur_sd[k] = case[4 + k]
+        cur_d = case[1]
+        case += [1, k, L, 2, k, 5, k + 1, c1, 0, 0, 5, k + 1, 1500, 0, 0]
+        case += rng.choice([[6, 1, 0, 7, 0, 0], [7, 0, 0, 6, 1, 0], [6, 1, 0], [7, 0, 0]])
+        tx = 2
     for _ in range(nops):
         r = rng.random()
         k = rng.randrange(n)
@@ -194,6 +208,19 @@ def fixed_ss(tier):
     # two streams competing for a small connection window, MAX_DATA arriving in pieces and out of order
     out.append([5, 50, 1, 0, 1000, 1000, 1, 0, 100, 1, 1, 100, 5, 0, 1200, 0, 0, 9, 40, 9, 60, 9, 55, 5, 0, 1200, 0, 0,
                 9, 300, 5, 0, 1200, 0, 0, 3, 0, 1, 5, 0, 1200, 0, 0])
+    # FIN packet acknowledged, an earlier data packet of the stream lost, then STOP_SENDING / reset before the
+    # retransmission: nothing but the RESET_STREAM may follow (no STREAM frame after RESET_STREAM)
+    for L, cap1 in ((200, 120), (100, 40), (64, 33), (1000, 300)):
+        for kill in ([4, 0, 9], [3, 0, 9]):
+            for first in ("ack", "loss"):
+                a = [6, 1, 0]
+                l = [7, 0, 0]
+                mid = a + l if first == "ack" else l + a
+                out.append([11, 100000, 0, 0, 100000, 1, 0, L, 2, 0, 5, 1, cap1, 0, 0, 5, 1, 1200, 0, 0] + mid + kill +
+                           [5, 1, 1200, 0, 0, 5, 0, 1200, 0, 0, 7, 2, 0, 5, 1, 1200, 0, 0])
+    # the same with three data packets, the middle one lost, retransmission-only constraint
+    out.append([12, 100000, 0, 0, 100000, 1, 0, 300, 2, 0, 5, 1, 100, 0, 0, 5, 1, 100, 0, 0, 5, 1, 1200, 0, 0,
+                6, 2, 0, 6, 0, 0, 7, 1, 0, 4, 0, 3, 5, 1, 1200, 2, 0, 5, 1, 1200, 0, 0])
     # reset after fin was sent; stop_sending before anything was sent
     out.append([1, 1000, 0, 0, 1000, 1, 0, 50, 2, 0, 5, 1, 1200, 0, 0, 3, 0, 5, 5, 1, 1200, 0, 0, 6, 0, 10])
     out.append([1, 1000, 0, 0, 1000, 4, 0, 5, 5, 1, 1200, 0, 0, 1, 0, 10, 5, 1, 1200, 0, 0])
